@@ -5,21 +5,21 @@
 
 #[cfg(kani)]
 #[macro_use]
-#[path = "../../../build/weave/harness/support/vk_kani.rs"]
+#[path = "../../weave/harness/support/vk_kani.rs"]
 pub(crate) mod vk;
 #[cfg(not(kani))]
 #[macro_use]
-#[path = "../../../build/weave/harness/support/vk_replay.rs"]
+#[path = "../../weave/harness/support/vk_replay.rs"]
 pub(crate) mod vk;
 
 #[cfg(kani)]
-#[path = "../../../build/weave/harness/support/vh.rs"]
+#[path = "../../weave/harness/support/vh.rs"]
 pub(crate) mod vh;
 #[cfg(kani)]
-#[path = "../../../build/weave/harness/support/mvec.rs"]
+#[path = "../../weave/harness/support/mvec.rs"]
 pub(crate) mod mvec;
 #[cfg(kani)]
-#[path = "../../../build/weave/harness/support/mvec8.rs"]
+#[path = "../../weave/harness/support/mvec8.rs"]
 pub(crate) mod mvec8;
 
 // under Kani `vec!` builds whichever `Vec` is in scope at the call site (the model Vec in the woven
@@ -30,20 +30,20 @@ macro_rules! vec {
     ($($x:expr),+ $(,)?) => {{ let mut v = Vec::new(); $(v.push($x);)+ v }};
 }
 
-#[path = "../../../build/weave/src/topic.rs"]
+#[path = "../../weave/src/topic.rs"]
 mod topic;
 #[macro_use]
-#[path = "../../../build/weave/src/utils.rs"]
+#[path = "../../weave/src/utils.rs"]
 mod utils;
-#[path = "../../../build/weave/src/error.rs"]
+#[path = "../../weave/src/error.rs"]
 pub mod error;
-#[path = "../../../build/weave/src/types.rs"]
+#[path = "../../weave/src/types.rs"]
 mod types;
-#[path = "../../../build/weave/src/version.rs"]
+#[path = "../../weave/src/version.rs"]
 mod version;
 // (its #[cfg(test)] module needs the ntex runtime: the file is left out of native model tests)
 #[cfg(not(test))]
-#[path = "../../../build/weave/src/inflight.rs"]
+#[path = "../../weave/src/inflight.rs"]
 mod inflight;
 
 #[cfg(not(test))]
@@ -52,12 +52,12 @@ pub use self::topic::{TopicFilter, TopicFilterError, TopicFilterLevel};
 pub use self::types::QoS;
 
 pub mod v3 {
-    #[path = "../../../../build/weave/src/v3/codec/mod.rs"]
+    #[path = "../../../weave/src/v3/codec/mod.rs"]
     pub mod codec;
 }
 pub mod v5 {
     // the one item of the real v5/mod.rs that the codec refers to; extracted verbatim by weave
-    include!("../../../build/weave/gen_v5_consts.rs");
-    #[path = "../../../../build/weave/src/v5/codec/mod.rs"]
+    include!("../../weave/gen_v5_consts.rs");
+    #[path = "../../../weave/src/v5/codec/mod.rs"]
     pub mod codec;
 }
